@@ -183,6 +183,30 @@ def run(ctx: core.Ctx):
             disagreements.append(dict(kind="write-bytes", seq=s, payload=list(d), impl=list(got), model=m))
     samples.append(dict(kind="write", seq=wcases[0][0], payload=list(wcases[0][1]), model=model[0]))
 
+    # ---- B1b: sequences of buffered and drained writes, sizes below / at / above the write buffer: a standard client
+    #      reassembles exactly the payloads, in order, with consecutive sequence ids ---------------------------------------
+    bsz = 32768
+    seqcases = [[(3, False), (70000, False), (4, True)], [(10, False), (bsz - 4, False), (1, False)], [(1, False), (bsz, True)],
+                [(bsz - 5, False), (1, False), (bsz + 1, False), (0, True)], [(40000, False), (40000, False)], [(5, False), (bsz - 4 - 9, False), (33000, True)]]
+    for _ in range(10 if ctx.quick else 200):
+        seqcases.append([(rng.choice([0, 1, 7, 300, bsz - 5, bsz - 4, bsz, bsz + 1, 40000, 70000]), rng.random() < 0.3) for _ in range(rng.randint(2, 6))])
+    for sc in seqcases:
+        payloads = [bytes((i * 7 + n + k) & 0xFF for i in range(n)) for k, (n, _) in enumerate(sc)]
+        s0 = rng.randrange(256)
+        got = impl.run_stream_writes([(p, d) for p, (_, d) in zip(payloads, sc)], start_seq=s0)
+        distinct.add(("wseq", tuple(sc)))
+        ctx.evals += 1
+        try:
+            raw = cl.split_raw(got)
+            ok = [p for _, p in raw] == payloads and [q for q, _ in raw] == [(s0 + i) % 256 for i in range(len(raw))]
+        except ValueError:
+            ok = False
+        if not ok:
+            core.report_violation(ctx, "a sequence of buffered and drained writes is not delivered as the same packets in order",
+                                  dict(kind="write-sequence", writes=[dict(size=n, drain=d) for n, d in sc], start_seq=s0,
+                                       sizes_on_the_wire=[len(p) for _, p in raw][:12] if 'raw' in dir() else None))
+            break
+
     # ---- B2: write side, length level incl. multiples of M -------------------------------------
     lens = [0, 1, M - 1, M, M + 1] if ctx.quick else [0, 1, 2, M - 2, M - 1, M, M + 1, 2 * M - 1, 2 * M, 2 * M + 1, 3 * M, 3 * M + 1]
     mlens = core.run_coq_terms(ctx, "c04l", HEADER, [f"frame_lens M {n}" for n in lens])
